@@ -13,7 +13,7 @@ from __future__ import annotations
 import random
 
 from vsim import gen as G
-from vsim.core import RunResult
+from vsim.core import RunResult, Tapes
 from vsim.gw import GwWorld, gc_paused
 from vsim.gwrun import restore_nodes
 from vsim.model import INTERNAL_MAX, classify_line, encode
@@ -36,7 +36,7 @@ ASSUMPTIONS = ["codec acceptance per the C02 recogniser"]
 REQUIRED_PROBES = ["cmd0", "cmd1", "cmd2", "cmd3", "cmd4", "dest_sleeping", "dest_unknown", "dest_awake",
                    "held_then_released", "written_at_once", "not_a_message", "stateful_prehistory",
                    "batch_with_write_fault"]
-SHRINK_LISTS = ("cases", "pre")
+SHRINK_LISTS = ("cases", "pre", "conc", "tapes")
 SET_TYPES = 57
 PRES_TYPES = 40
 
@@ -115,6 +115,24 @@ def gen(seed: int, i: int, tier: str) -> dict:
                                     "9;255;0;0;17;2.0\n", "255;255;3;0;3;\n", "2;0;0;0;3;c\n", "2;1;1;0;2;1\n",
                                     "2;255;3;0;0;50\n", "2;0;2;0;47;\n", "1;255;3;0;6;\n"])
                         for _ in range(rng.randint(0, 4))]
+    if "batch" not in scn and rng.random() < 0.2:
+        # several application tasks send at the same time while transport writes suspend, fail or the sender is
+        # cancelled: a send that returns normally has handed its line over (or parked it), whoever else failed
+        k = rng.randint(2, 4)
+        senders = []
+        for j in range(k):
+            dest = rng.choice([1, 1, 1, 2, 50])
+            if rng.random() < 0.75:
+                f = [dest, rng.choice([0, 1]), 1, rng.choice([0, 1]), rng.choice([2, 3, 24, 47]), f"u{j}"]
+            else:
+                f = [dest, 255, 3, 0, rng.choice([13, 18, 19, 24][: 4 if proto in G.PROTOS_2X else 2]), ""]
+                f[5] = f"u{j}" if f[4] == 24 else ""
+            senders.append([rng.choice([0, 0, 0.5, 1, 1.5, 2]), f, rng.random() < 0.8,
+                            rng.choice([None, None, None, 0.5, 1.5])])
+        scn["conc"] = senders
+        scn["tapes"] = {"w.lat": [rng.choice([0, 1, 2, 3]) for _ in range(k + 1)],
+                        "w.fail.set": [rng.choice([0, 0, 1, 2]) for _ in range(rng.randint(0, 2))],
+                        "w.fail.other": [rng.choice([0, 0, 1, 2]) for _ in range(rng.randint(0, 2))]}
     return scn
 
 
@@ -131,6 +149,8 @@ def run(scn) -> RunResult:
         try:
             if scn.get("batch"):
                 _batch(scn, proto, res)
+            if scn.get("conc"):
+                _concurrent(scn, proto, res)
             restore_nodes(w.gateway, {
                 "1": {"type": 17, "version": proto, "children": {"0": {"type": 3, "desc": "c"}}},
                 "2": {"type": 17, "version": proto, "sleeping": True, "children": {"0": {"type": 3, "desc": "c"}}},
@@ -216,6 +236,80 @@ def run(scn) -> RunResult:
     return res
 
 
+def _concurrent(scn, proto, res):
+    """Overlapping send calls: every call that returns normally has its line handed to the transport (during the call
+    or, for a sleeping destination, at the next wake); the others raised a library error or were cancelled."""
+    import asyncio
+    from aiomysensors.exceptions import AIOMySensorsError
+    from aiomysensors.model.message import Message
+    w = GwWorld({"pin": proto}, scn.get("tapes"))
+    try:
+        restore_nodes(w.gateway, {
+            "1": {"type": 17, "version": proto, "children": {"0": {"type": 3, "desc": "c"}, "1": {"type": 3, "desc": "c"}}},
+            "2": {"type": 17, "version": proto, "sleeping": True,
+                  "children": {"0": {"type": 3, "desc": "c"}, "1": {"type": 3, "desc": "c"}}},
+        })
+        loop = w.loop
+        outcomes = {}
+
+        async def sender(j, at, f, buf):
+            await asyncio.sleep(at)
+            w.log("app", "send", j)
+            try:
+                await w.gateway.send(Message(*f), message_buffer=buf)
+                outcomes[j] = ("ok", None)
+            except AIOMySensorsError as exc:
+                outcomes[j] = ("err", type(exc).__name__)
+            except asyncio.CancelledError:
+                outcomes[j] = ("cancelled", None)
+                raise
+            except BaseException as exc:  # noqa: BLE001
+                outcomes[j] = ("other", type(exc).__name__)
+            w.log("app", "send-done", j, outcomes[j][0])
+
+        tasks = []
+        for j, (at, f, buf, cancel_after) in enumerate(scn["conc"]):
+            t = loop.create_task(sender(j, at, tuple(f), buf))
+            tasks.append(t)
+            if cancel_after is not None:
+                loop.call_later(at + cancel_after, t.cancel)
+                res.probes["concurrent_sender_cancelled"] += 1
+        loop.run_until_idle(200)
+        w.tapes = Tapes({})  # the wakes that follow are fault-free
+        for k in range(len(scn["conc"]) + 2):
+            w.listen_step(G.wake_line(proto, 2, k))
+        handed = [r["line"] for r in w.writes]
+        overlapped = any(a["seq_start"] < b["seq_start"] < (a["seq_end"] or 10 ** 9)
+                         for a in w.writes for b in w.writes if a is not b and a["seq_start"] is not None
+                         and b["seq_start"] is not None)
+        res.probes["concurrent_sends"] += 1
+        if overlapped:
+            res.probes["send_during_another_write"] += 1
+        for j, (at, f, buf, cancel_after) in enumerate(scn["conc"]):
+            kind, cls = outcomes.get(j, ("hang", None))
+            line = encode(tuple(f))
+            if kind == "other":
+                res.violate(PROP, "exactly-one-outcome", f"concurrent:raised-{cls}", f"{proto} send{tuple(f)}")
+            elif kind == "hang" and not tasks[j].cancelled():
+                res.violate(PROP, "exactly-one-outcome", "concurrent:hang", f"{proto} send{tuple(f)}")
+            elif kind == "ok" and line not in handed:
+                held_1x = proto not in G.PROTOS_2X and f[0] == 2 and f[2] == 1 and buf
+                # a command held for the sleeping node is replaced by a later one for the same (child, type) (C07)
+                superseded = f[0] == 2 and f[2] == 1 and buf and any(
+                    g[0] == 2 and g[2] == 1 and b2 and (g[1], g[4]) == (f[1], f[4]) and encode(tuple(g)) in handed
+                    for j2, (_, g, b2, _) in enumerate(scn["conc"]) if j2 != j)
+                if not held_1x and not superseded:
+                    res.violate(PROP, "never-silently-discarded", f"dropped:cmd{f[2]}:concurrent-senders",
+                                f"{proto}: send{tuple(f)} buffer={buf} returned normally, {line!r} was never handed to "
+                                f"the transport; outcomes={outcomes} handed={handed}")
+        res.ops += len(scn["conc"])
+        res.faults.update(w.faults)
+        res.vt += w.loop.time()
+        res.steps += w.loop.steps
+    finally:
+        w.close()
+
+
 def _batch(scn, proto, res):
     """Messages held for a sleeping node must all reach the transport exactly once, also when writes fail at a wake."""
     w = GwWorld({"pin": proto}, scn.get("tapes"))
@@ -252,5 +346,8 @@ def _batch(scn, proto, res):
                             f"held-then-{'lost' if n == 0 else 'repeated'}",
                             f"{proto}: {line!r} written {n} times over {len(scn['batch']) + 4} wakes; all writes {written}")
         res.ops += len(scn["batch"]) + 4
+        res.faults.update(w.faults)
+        res.vt += w.loop.time()
+        res.steps += w.loop.steps
     finally:
         w.close()
